@@ -293,8 +293,86 @@ func readCursor(path string) int {
 	return int(int64(binary.LittleEndian.Uint64(b)))
 }
 
+// c06nilReceivers: every method of the message types called on a nil pointer (a variable that was
+// declared but never assigned, a lookup that found nothing) returns an error; it does not panic.
+func c06nilReceivers(rec *mon.Recorder, keys *gen.KeyRing) {
+	k := keys.Keys[0]
+	b := []byte{0xd2, 0x84, 0x40, 0xa0, 0x41, 0x01, 0x41, 0x02}
+	parent := &cose.Sign1Message{Headers: cose.Headers{Protected: cose.ProtectedHeader{int64(1): k.Alg}}, Payload: []byte("p"), Signature: []byte{1}}
+	var s1 *cose.Sign1Message
+	var u1 *cose.UntaggedSign1Message
+	var sm *cose.SignMessage
+	var sg *cose.Signature
+	var cs *cose.Countersignature
+	var ph *cose.ProtectedHeader
+	var uh *cose.UnprotectedHeader
+	var hd *cose.Headers
+	var ky *cose.Key
+	calls := map[string]func(){
+		"Sign1Message.MarshalCBOR":           func() { _, _ = s1.MarshalCBOR() },
+		"Sign1Message.UnmarshalCBOR":         func() { _ = s1.UnmarshalCBOR(b) },
+		"Sign1Message.Sign":                  func() { _ = s1.Sign(gen.Entropy, nil, k.Signer) },
+		"Sign1Message.Verify":                func() { _ = s1.Verify(nil, k.Verifier) },
+		"UntaggedSign1Message.MarshalCBOR":   func() { _, _ = u1.MarshalCBOR() },
+		"UntaggedSign1Message.UnmarshalCBOR": func() { _ = u1.UnmarshalCBOR(b[1:]) },
+		"UntaggedSign1Message.Sign":          func() { _ = u1.Sign(gen.Entropy, nil, k.Signer) },
+		"UntaggedSign1Message.Verify":        func() { _ = u1.Verify(nil, k.Verifier) },
+		"SignMessage.MarshalCBOR":            func() { _, _ = sm.MarshalCBOR() },
+		"SignMessage.UnmarshalCBOR":          func() { _ = sm.UnmarshalCBOR(b) },
+		"SignMessage.Sign":                   func() { _ = sm.Sign(gen.Entropy, nil, k.Signer) },
+		"SignMessage.Verify":                 func() { _ = sm.Verify(nil, k.Verifier) },
+		"Signature.MarshalCBOR":              func() { _, _ = sg.MarshalCBOR() },
+		"Signature.UnmarshalCBOR":            func() { _ = sg.UnmarshalCBOR(b[1:]) },
+		"Signature.Sign":                     func() { _ = sg.Sign(gen.Entropy, k.Signer, []byte{0x40}, []byte("p"), nil) },
+		"Signature.Verify":                   func() { _ = sg.Verify(k.Verifier, []byte{0x40}, []byte("p"), nil) },
+		"Countersignature.MarshalCBOR":       func() { _, _ = cs.MarshalCBOR() },
+		"Countersignature.UnmarshalCBOR":     func() { _ = cs.UnmarshalCBOR(b[1:]) },
+		"Countersignature.Sign":              func() { _ = cs.Sign(gen.Entropy, k.Signer, parent, nil) },
+		"Countersignature.Verify":            func() { _ = cs.Verify(k.Verifier, parent, nil) },
+		"ProtectedHeader.UnmarshalCBOR":      func() { _ = ph.UnmarshalCBOR([]byte{0x40}) },
+		"UnprotectedHeader.UnmarshalCBOR":    func() { _ = uh.UnmarshalCBOR([]byte{0xa0}) },
+		"UnprotectedHeader.UnmarshalCBOR(nil data)": func() {
+			var h cose.UnprotectedHeader
+			_ = h.UnmarshalCBOR(nil)
+		},
+		"ProtectedHeader.UnmarshalCBOR(nil data)": func() {
+			var h cose.ProtectedHeader
+			_ = h.UnmarshalCBOR(nil)
+		},
+		"Key.UnmarshalCBOR(nil data)": func() {
+			var kk cose.Key
+			_ = kk.UnmarshalCBOR(nil)
+		},
+		"SignMessage.Sign(nil slot)": func() {
+			m := &cose.SignMessage{Payload: []byte("p"), Signatures: []*cose.Signature{nil}}
+			_ = m.Sign(gen.Entropy, nil, k.Signer)
+			_ = m.Verify(nil, k.Verifier)
+			_, _ = m.MarshalCBOR()
+		},
+		"nil signer / verifier": func() {
+			m := &cose.Sign1Message{Headers: cose.Headers{Protected: cose.ProtectedHeader{int64(1): k.Alg}}, Payload: []byte("p")}
+			defer func() { _ = recover() }() // a nil key interface is a caller error: not judged
+			_ = m.Sign(gen.Entropy, nil, nil)
+		},
+	}
+	_, _, _ = hd, ky, parent
+	names := make([]string, 0, len(calls))
+	for n := range calls {
+		names = append(names, n)
+	}
+	sortStrings(names)
+	for _, n := range names {
+		in := map[string]any{"call": n, "receiver": "nil pointer"}
+		guard(rec, "nil receiver: "+n, in, calls[n])
+		rec.Eval(1)
+		rec.Event("nil-receiver-calls")
+		rec.Class("nil-receiver/" + n)
+	}
+}
+
 func runC06(c *Ctx) {
 	rec := c.Rec
+	c06nilReceivers(rec, c.Keys)
 	inputs := c06inputs(c)
 	rec.Extra("inputs", len(inputs))
 	rec.MaxSamples = 14
